@@ -66,7 +66,7 @@ func Verif_C20_vesting_create_pool() {
 	k, ctx := verifC20Ctx()
 	msg := &types.MsgCreateVestingPool{Owner: verif_str_in("owner", vAddrPool...), Name: verif_str_in("name", "pool-a", "new", ""), Amount: verifNilableInt("amount"),
 		Duration: time.Duration(verif_i64_range("duration", -5, 100000000000000000)), VestingType: verif_str_in("vt", "vt", "missing", "")}
-	if msg.ValidateBasic() == nil {
+	if verifC20Run(msg.ValidateBasic) {
 		_, _ = NewMsgServerImpl(k).CreateVestingPool(sdk.WrapSDKContext(ctx), msg)
 		verif_reach("handler ran")
 	}
@@ -75,7 +75,7 @@ func Verif_C20_vesting_create_pool() {
 func Verif_C20_vesting_withdraw() {
 	k, ctx := verifC20Ctx()
 	msg := &types.MsgWithdrawAllAvailable{Owner: verif_str_in("owner", vAddrPool...)}
-	if msg.ValidateBasic() == nil {
+	if verifC20Run(msg.ValidateBasic) {
 		_, _ = NewMsgServerImpl(k).WithdrawAllAvailable(sdk.WrapSDKContext(ctx), msg)
 		verif_reach("handler ran")
 	}
@@ -85,7 +85,7 @@ func Verif_C20_vesting_send_to_vesting_account() {
 	k, ctx := verifC20Ctx()
 	msg := &types.MsgSendToVestingAccount{Owner: verif_str_in("owner", vAddrPool...), ToAddress: verif_str_in("to", vAddrPool...),
 		VestingPoolName: verif_str_in("name", "pool-a", "missing", ""), Amount: verifNilableInt("amount"), RestartVesting: verif_bool("restart")}
-	if msg.ValidateBasic() == nil {
+	if verifC20Run(msg.ValidateBasic) {
 		_, _ = NewMsgServerImpl(k).SendToVestingAccount(sdk.WrapSDKContext(ctx), msg)
 		verif_reach("handler ran")
 	}
@@ -109,7 +109,7 @@ func Verif_C20_vesting_create_vesting_account() {
 	k, ctx := verifC20Ctx()
 	msg := &types.MsgCreateVestingAccount{FromAddress: verif_str_in("from", vOwner, vOther, "notbech32"), ToAddress: verif_str_in("to", vOther, "c4e:recipient", ""), Amount: verifC20Coins(),
 		StartTime: verif_i64_range("startUnix", -5, 4000000000), EndTime: verif_i64_range("endUnix", -5, 4000000000)}
-	if msg.ValidateBasic() == nil {
+	if verifC20Run(msg.ValidateBasic) {
 		_, _ = NewMsgServerImpl(k).CreateVestingAccount(sdk.WrapSDKContext(ctx), msg)
 		verif_reach("handler ran")
 	}
@@ -118,7 +118,7 @@ func Verif_C20_vesting_create_vesting_account() {
 func Verif_C20_vesting_split() {
 	k, ctx := verifC20Ctx()
 	msg := &types.MsgSplitVesting{FromAddress: verif_str_in("from", vAddrPool...), ToAddress: verif_str_in("to", vAddrPool...), Amount: verifC20Coins()}
-	if msg.ValidateBasic() == nil {
+	if verifC20Run(msg.ValidateBasic) {
 		_, _ = NewMsgServerImpl(k).SplitVesting(sdk.WrapSDKContext(ctx), msg)
 		verif_reach("handler ran")
 	}
@@ -127,7 +127,7 @@ func Verif_C20_vesting_split() {
 func Verif_C20_vesting_move() {
 	k, ctx := verifC20Ctx()
 	msg := &types.MsgMoveAvailableVesting{FromAddress: verif_str_in("from", vAddrPool...), ToAddress: verif_str_in("to", vAddrPool...)}
-	if msg.ValidateBasic() == nil {
+	if verifC20Run(msg.ValidateBasic) {
 		_, _ = NewMsgServerImpl(k).MoveAvailableVesting(sdk.WrapSDKContext(ctx), msg)
 		verif_reach("handler ran")
 	}
@@ -140,7 +140,7 @@ func Verif_C20_vesting_move_by_denoms() {
 		denoms = append(denoms, verif_str_in("denom"+string(rune('1'+i)), vDenom, "a", "", "UPPER!", "zzz"))
 	}
 	msg := &types.MsgMoveAvailableVestingByDenoms{FromAddress: verif_str_in("from", vAddrPool...), ToAddress: verif_str_in("to", vAddrPool...), Denoms: denoms}
-	if msg.ValidateBasic() == nil {
+	if verifC20Run(msg.ValidateBasic) {
 		_, _ = NewMsgServerImpl(k).MoveAvailableVestingByDenoms(sdk.WrapSDKContext(ctx), msg)
 		verif_reach("handler ran")
 	}
@@ -149,7 +149,7 @@ func Verif_C20_vesting_move_by_denoms() {
 func Verif_C20_vesting_update_denom() {
 	k, ctx := verifC20Ctx()
 	msg := &types.MsgUpdateDenomParam{Authority: verif_str_in("authority", "c4e:gov", "c4e:mod:gov", "", "notbech32"), Denom: verif_str_in("denom", "unew", "", "a")}
-	if msg.ValidateBasic() == nil {
+	if verifC20Run(msg.ValidateBasic) {
 		_, _ = NewMsgServerImpl(k).UpdateDenomParam(sdk.WrapSDKContext(ctx), msg)
 		verif_reach("handler ran")
 	}
@@ -191,4 +191,14 @@ func Verif_C20_vesting_queries() {
 		}
 	}
 	verif_reach("query ran")
+}
+
+// A handler is exercised when basic validation passes and also when it is called directly, whatever basic validation would say
+// (handlers are reachable without ValidateBasic from other modules and from tests; they carry their own guards). In the direct
+// mode ValidateBasic is not run at all, so its branches do not multiply the handler's.
+func verifC20Run(basic func() error) bool {
+	if verif_choice("handlerCalledDirectly", 2) == 1 {
+		return true
+	}
+	return basic() == nil
 }
